@@ -418,15 +418,25 @@ HS_ASSUME = RING_ASSUME[1:] + [
     "ring::digest is an uninterpreted deterministic function (memo table); ring::agreement the commutative model",
 ]
 PROPS["C14"] = {
-    "files": ["src/crypto/init.rs"],
-    "functions": ["InitState::handle_init (Ping arm)", "InitState::check_salted_node_id_hash", "InitState::new"],
-    "bounds": "one real handle_init step of a handshake object built by the real InitState::new (arbitrary node id and salt) in each "
+    "files": ["src/crypto/init.rs", "src/cloud.rs", "src/messages.rs"],
+    "functions": ["InitState::handle_init (Ping arm)", "InitState::check_salted_node_id_hash", "InitState::new",
+                  "GenericCloud::connect_to_peers (extracted whole)"],
+    "bounds": "(a) one real handle_init step of a handshake object built by the real InitState::new (arbitrary node id and salt) in each "
               "stage (fresh, awaiting pong, awaiting peng, lingering, closing) on a verified ping whose salted hash was made from "
-              "the same node id with an arbitrary other salt",
-    "outside": "everything else the property says: full-mesh convergence from any connected bootstrap graph, NAT scenarios, "
-               "adoption of own addresses listed by peers (GenericCloud::connect_to_peers) - whole-node behaviour, not reachable. "
-               "Only the handshake-level self-connection refusal is decided",
-    "assumptions": HS_ASSUME,
+              "the same node id with an arbitrary other salt; (b) one call of connect_to_peers, extracted textually from src/cloud.rs, "
+              "on a node with 0..=2 connected peers (symbolic addresses and identities), 0..=1 known own address and a received list "
+              "of 1..=3 entries (first entry two addresses, the others one; identity present or absent, all symbolic)",
+    "outside": "full-mesh convergence from any connected bootstrap graph over rounds of exchange, NAT scenarios - whole-node "
+               "behaviour, not reachable. Decided are the handshake-level self-connection refusal and the peer-list step (which "
+               "entries of a received list are dialled / adopted); longer lists and more peers are outside the bound; what connect() "
+               "itself then does (resolve, skip pending handshakes, send) is outside",
+    "assumptions": HS_ASSUME + EXTRACT_ASSUME + [
+        "peer-list step: the node is projected to the four things connect_to_peers touches (node_id, peers: address -> identity, "
+        "own_addresses, and connect() replaced by a recorder of its calls: the real connect starts handshakes and changes neither "
+        "peers nor own_addresses); the address and node-identity types are abstracted to u16 newtypes - the function uses both only through ==, "
+        "contains, contains_key and copy (an edit reaching for anything else does not compile: exit 2); PeerInfo/AddrList shapes are checked against src/messages.rs by the generator (mismatch: exit 2)",
+        "representation invariant assumed for the pre-state: peer-table keys distinct, no connected peer carries the node's own identity",
+    ],
     "obligations": [
         K("c14_ping_from_own_node_id_is_refused", "a ping from another handshake object of the same node is refused as 'connected to self': no core, no reply, stage unchanged",
           role="c14_self_ping", timeout={"quick": 600}),
@@ -434,6 +444,12 @@ PROPS["C14"] = {
         K("c14_self_ping_refused_awaiting_peng", "same while awaiting the peng", role="c14_self_ping", timeout={"quick": 600}),
         K("c14_self_ping_refused_lingering", "same while lingering after success", T, role="c14_self_ping"),
         K("c14_self_ping_refused_closing", "same while closing", T, role="c14_self_ping"),
+        K("c14_peer_list_step_p1_l2", "received peer list (GenericCloud::connect_to_peers, extracted whole; 1 connected peer, 2 entries of 2 addresses): every "
+          "unconnected, foreign, unknown-identity entry is dialled wherever it stands; an entry under the own identity is adopted, never dialled; nothing else",
+          role="c14_peer_list", timeout={"quick": 600}),
+        K("c14_peer_list_step_p2_l2", "same, 2 connected peers, 2 entries", role="c14_peer_list", timeout={"quick": 600}, mem_gb=16),
+        K("c14_peer_list_step_p0_l1", "same, no peer yet, 1 entry", role="c14_peer_list"),
+        K("c14_peer_list_step_p2_l3", "same, 2 connected peers, 3 entries (no own address known yet)", role="c14_peer_list", timeout={"quick": 600}, mem_gb=16),
     ],
 }
 
